@@ -1056,12 +1056,25 @@ func GrammarGen(cfg GenConfig) *rapid.Generator[*Grammar] {
 			r := &Rule{Name: c.names[i], Expr: e}
 			if cfg.Display && c.chance(40, "display") {
 				r.Display = Pick(t, []string{"friendly", "a b", "x\"y", "é", "100%d", "%s%v"}, "dname")
+				if c.chance(15, "dnamerule") {
+					// a display name spelled like the name of another rule (it is a text for
+					// messages, not a name anything resolves)
+					r.Display = Pick(t, c.names, "dnamerulename")
+				}
 			}
 			rules[i] = r
 			c.nullable[c.names[i]] = n
 		}
 		c.g.Rules = append(rules, recRules...)
 		c.g.Entries = append([]string{}, entries...)
+		if !cfg.Throw && !cfg.NoSpellings && c.chance(4, "barethrow") {
+			// a throw in a grammar without any recovery operator: it fails like a mismatch
+			thr := &Rule{Name: "Thr", Expr: &Expr{K: KChoice, Sub: []*Expr{
+				{K: KSeq, Sub: []*Expr{c.consuming(), {K: KThrow, Name: "F1"}}}, c.consuming()}}}
+			c.g.Rules = append(c.g.Rules, thr)
+			entries = append(entries, "Thr")
+			c.g.Entries = append(c.g.Entries, "Thr")
+		}
 		if cfg.Throw && !cfg.NoSpellings && c.chance(12, "reentrantrecover") {
 			// RA = ( "[" RB? t? %{F} ) //{F} ra ; RB = ( RA "]"? ) //{F} rb : the operator of RA is
 			// entered again while its guarded expression runs, with another operator for the same
